@@ -274,10 +274,12 @@ pub fn render_unit(u: &Value, style: u64, rotk: u32) -> String {
         "nop" => if style % 2 == 0 { "NOP".into() } else { "DEEP:NOP".into() },
         "nopq" => format!("NOPQ? {}", v),
         "fail" => format!("FAIL {},{}", u["code"], u["ext"]),
-        "bad" => match (u["k"].as_str().unwrap(), if u["k"] == "form" { style % 8 } else { style % 3 }) {
+        "bad" => match (u["k"].as_str().unwrap(), if u["k"] == "form" { style % 8 } else if u["k"] == "syntax" { style % 5 } else { style % 3 }) {
             ("syntax", 0) => "NOP $".into(),
             ("syntax", 1) => "NOP 1,,2".into(),
-            ("syntax", _) => "TU8 'abc".into(),
+            ("syntax", 2) => "TU8 'abc".into(),
+            ("syntax", 3) => "TU8 ,1".into(),
+            ("syntax", _) => "NOPQ? , 1".into(),
             ("undef", 0) => "XYZ".into(),
             ("undef", 1) => "STAT:OPER:NOPE?".into(),
             ("undef", _) => "*XYZ".into(),
